@@ -72,6 +72,7 @@ fn programs() -> Vec<Program> {
     let a = op(b"HELLO WORLD", Opts::default(), Render::None);
     let b = op(b"a longer byte payload that needs version three..", Opts { ecl: Some(1), ..Opts::default() }, Render::None);
     let c = op(b"31415926535897932384626433", Opts { ecl: Some(0), ..Opts::default() }, Render::None);
+    let x2 = op(b"HELLO WORLD 12345 ABCDEFG", Opts::default(), Render::None);
     let sh = Op { shared: true, ..a.clone() };
     let a_term = op(b"HELLO WORLD", Opts::default(), Render::Term);
     let b_term = op(b"a longer byte payload that needs version three..", Opts { ecl: Some(1), ..Opts::default() }, Render::Term);
@@ -85,6 +86,7 @@ fn programs() -> Vec<Program> {
         Program { name: "F5 two builds per thread, opposite order", threads: vec![vec![a.clone(), b.clone()], vec![b.clone(), a.clone()]] },
         Program { name: "F6 terminal renders of two sizes, opposite order", threads: vec![vec![a_term.clone(), b_term.clone()], vec![b_term.clone(), a_term.clone()]] },
         Program { name: "F7 SVG renders of two sizes, opposite order", threads: vec![vec![a_svg.clone(), b_svg.clone()], vec![b_svg.clone(), a_svg.clone()]] },
+        Program { name: "F9 large then smaller symbol with remainder bits on one thread, a small one on the other", threads: vec![vec![b.clone(), x2.clone()], vec![a.clone()]] },
         Program { name: "F8 three threads (A then C, B, C then A), same version different content", threads: vec![vec![a.clone(), c.clone()], vec![b.clone()], vec![c.clone(), a.clone()]] },
     ]
 }
@@ -418,8 +420,8 @@ fn decompress(v: &Value) -> Option<Vec<usize>> {
 
 // ---------------------------------------------------------------- parent: all programs, children in parallel
 
-/// the quick tier runs the two-thread programs (F1, F3, F5, F6, F7); thorough runs all eight with k = 3
-const QUICK_PROGRAMS: [usize; 5] = [0, 2, 4, 5, 6];
+/// the quick tier runs the two-thread programs (F1, F3, F5, F6, F7, F9); thorough runs all nine with k = 3
+const QUICK_PROGRAMS: [usize; 6] = [0, 2, 4, 5, 6, 7];
 
 fn explore_all(thorough: bool) -> i32 {
     let progs = programs();
